@@ -123,11 +123,13 @@ def run(ctx):
     gen = T.Gen(ctx.rng, kinds=kinds)
     gen.concat_equal = "concat_assert_wrong_axis" in present
     gen.sparse_sorted = "sparse_unsorted_cols" in present
+    gen.mix_excl = ({"Sliced"} if ("sliced_drops_imag" in present or "sliced_casts_operand" in present) else set()) | \
+                   ({"KronSum"} if "kronsum_inplace_dtype" in present else set())
 
     def accept(case):
         t = case["tree"]
         tree_cplx = any(d in T.CPLX for d in O.leaf_dts(t))
-        if "sliced_drops_imag" in present and O.has_kind(t, ("Sliced",)) and case["dx"] in T.CPLX and not tree_cplx:
+        if "sliced_drops_imag" in present and O.sliced_unsafe(t, case["dx"]):
             return False
         if "kronsum_inplace_dtype" in present and O.has_kind(t, ("KronSum",)) and tree_cplx and case["dx"] not in T.CPLX:
             return False
